@@ -909,7 +909,7 @@ def extend_law(ctx, rng, da, db, a, base, state):
   child = S.build(da)
   c['extend_evals'] += 1
   hist = {'tf': S.has_transform(da) or S.has_transform(db), 'mode': 'spec'}
-  if rng.random() < 0.4:
+  if rng.random() < 0.65:
     # The child spec was in use before it is extended.
     hist['warmed'] = True
     warm(ctx, rng, child)
@@ -945,6 +945,8 @@ def extend_law(ctx, rng, da, db, a, base, state):
     c['extend_ok_class'] += 1
   if hist['tf']:
     c['extend_ok_transform'] += 1
+  if da.get('tf'):
+    c['extend_ok_own_transform:' + cname(ext)] += 1
   pair = f'{cname(child)}->{cname(base)}'
   witness = Lazy(lambda: {'child': S.show(da), 'base': S.show(db), 'extended': short(ext),
                           'history': {k: v for k, v in hist.items() if v}})
@@ -1053,7 +1055,7 @@ def extend_law(ctx, rng, da, db, a, base, state):
 def make_pool(rng, params):
   regex = rng.random() < 0.12
   base = S.gen_spec(rng, 0, 3, regex=regex)
-  if rng.random() < 0.5:
+  if rng.random() < 0.6:
     base = S.add_transforms(rng, base, 0.5)
   pool = [base]
   for _ in range(params['family']):
